@@ -891,6 +891,8 @@ LAWS = [
         quick=100, thorough=1000, shards=(1, 2)),
     Law("kernel", kernel_case(), body_kernel, _nt_dim, quick=200, thorough=2000,
         shards=(1, 4)),
+    Law("kernel_complex", kernel_complex_case(), body_kernel_complex, lambda l: True, quick=150,
+        thorough=1000, shards=(1, 2)),
     Law("sphere_through", sphere_case(), body_sphere, _nt_dim, quick=150, thorough=1500,
         shards=(1, 4)),
     Law("circle_through", sphere_case(circle=True), body_sphere, lambda l: True, quick=100,
